@@ -34,6 +34,7 @@ func main() {
 	concurrentBufferPhase(r, rng)
 	twoWriterBufferPhase(r, rng)
 	syncPhase(r, rng)
+	meshPhase(r, rng)
 	if r.Thorough() {
 		realServersPhase(r, rng)
 	}
